@@ -297,6 +297,21 @@ pub fn run(ctx: &Ctx) {
                     offer(b, &mut m, &mut rep, "secret", der, "rsa:wrong-modulus-4096", Expect::Reject);
                     offer(b, &mut m, &mut rep, "public", &pub_der, "rsa:wrong-modulus-4096", Expect::Reject);
                 }
+                // moduli that are nearly, but not exactly, 2048 / 4096 bits (same byte length or one byte off)
+                for bits in [1024usize, 2040, 2047, 2049, 2050, 2056, 3072, 4088, 4094, 4095] {
+                    for der in tok::corpus_rsa_keys_named(bits, "x") {
+                        let k = rsa::RsaPrivateKey::from_pkcs1_der(&der).unwrap();
+                        assert_eq!(rsa::traits::PublicKeyParts::n(&k).bits(), bits, "corpus key rsa{bits}_x.der");
+                        let pem = k.to_pkcs1_pem(rsa::pkcs8::LineEnding::LF).unwrap().as_bytes().to_vec();
+                        let pub_der = k.to_public_key().to_public_key_der().unwrap().into_vec();
+                        let what = format!("rsa:wrong-modulus-{bits}");
+                        offer(b, &mut m, &mut rep, "secret", &der, &what, Expect::Reject);
+                        offer(b, &mut m, &mut rep, "secret", &pem, &what, Expect::Reject);
+                        offer(b, &mut m, &mut rep, "public", &pub_der, &what, Expect::Reject);
+                        offer(b, &mut m, &mut rep, "pke-secret", &der, &what, Expect::Reject);
+                        offer(b, &mut m, &mut rep, "pke-public", &pub_der, &what, Expect::Reject);
+                    }
+                }
                 for len in [0usize, 1, 32, 64, 270, 1190] {
                     offer(b, &mut m, &mut rep, "secret", &g.bytes(len), "rsa:random-bytes", Expect::Reject);
                     offer(b, &mut m, &mut rep, "public", &g.bytes(len), "rsa:random-bytes", Expect::Reject);
